@@ -164,14 +164,67 @@ let etype_of_char = function
   | 'C' -> ECreated | 'U' -> EUpdated | 'D' -> EDeleted
   | 'c' -> ECreatedAsync | 'u' -> EUpdatedAsync | _ -> EDeletedAsync
 
-let parse_reg (tok : string) : string * listener =
+(* fifth strengthening (Store/EventsReg.v; harness store_c08_regpass.go): an optional fourth field says HOW the caller hands
+   the additional types to the Add*Listener call - l spelled out, z an empty slice, b<g> the caller's buffer g (one array
+   with spare capacity, re-filled and passed to every registration that names it), s<k> a slice with k spare cells that
+   the caller overwrites after the call.  The driver plays the caller's program of the whole REGS section against the
+   registration expression of store_crud.go ([reg_pinned]) on the modelled heap and takes every listener's types from what
+   its registration holds AT THE END ([reg_types]); Properties/C08.v registration_types_fixed says that these are the types
+   named in the call, which is asserted here per registration. *)
+let split_reg (tok : string) : string * string * string * string =
   match String.split_on_char ':' tok with
-  | [sty; store; types] ->
-      let style = (match sty with "t" -> LTyped | "f" -> LFunction | "u" -> LUntyped | "i" -> LIdOnly
-                                | _ -> failwith ("bad registration style " ^ tok)) in
-      (tok, { l_style = style; l_store = name_of_string store;
-              l_types = List.init (String.length types) (fun i -> etype_of_char types.[i]) })
+  | [sty; store; types] -> (sty, store, types, "l")
+  | [sty; store; types; pass] -> (sty, store, types, pass)
   | _ -> failwith ("bad registration " ^ tok)
+
+let scribble_type (types : string) : etype =
+  let up = String.uppercase_ascii types in
+  match List.filter (fun k -> not (String.contains up k)) ['C'; 'U'; 'D'] with
+  | k :: _ -> etype_of_char k
+  | [] -> etype_of_char types.[0]
+
+let reg_buf_cap = 4
+
+let parse_regs (toks : string list) : (string * listener) list =
+  let st = ref (heap_empty, []) in
+  let act a = st := cstep (reg_pinned []) !st a in
+  let make cells = let id = (fst !st).h_next in act (CMake cells); id in
+  let bufs = Hashtbl.create 4 in
+  let named = List.map (fun tok ->
+    let (sty, store, types, pass) = split_reg tok in
+    let style = (match sty with "t" -> LTyped | "f" -> LFunction | "u" -> LUntyped | "i" -> LIdOnly
+                              | _ -> failwith ("bad registration style " ^ tok)) in
+    if types = "" then failwith ("bad registration " ^ tok);
+    let tys = List.init (String.length types) (fun i -> etype_of_char types.[i]) in
+    let first = List.hd tys and extras = List.tl tys in
+    let n = List.length extras in
+    (match pass with
+     | "l" | "z" ->
+         if n = 0 then act (CRegister (first, nil_slice))
+         else begin
+           let id = make extras in
+           act (CRegister (first, { s_arr = id; s_off = nat_of_int 0; s_len = nat_of_int n; s_cap = nat_of_int n }))
+         end
+     | _ when String.length pass = 2 && pass.[0] = 'b' ->
+         (* the cells of a fresh buffer hold Go's zero value, which is no change type: any content *)
+         let id = (match Hashtbl.find_opt bufs pass with
+                   | Some id -> id
+                   | None -> let id = make (List.init reg_buf_cap (fun _ -> first)) in Hashtbl.add bufs pass id; id) in
+         List.iteri (fun i v -> act (CWrite (id, nat_of_int i, v))) extras;
+         act (CRegister (first, { s_arr = id; s_off = nat_of_int 0; s_len = nat_of_int n; s_cap = nat_of_int reg_buf_cap }))
+     | _ when String.length pass = 2 && pass.[0] = 's' ->
+         let k = Char.code pass.[1] - Char.code '0' in
+         let id = make (extras @ List.init k (fun _ -> first)) in
+         act (CRegister (first, { s_arr = id; s_off = nat_of_int 0; s_len = nat_of_int n; s_cap = nat_of_int (n + k) }));
+         let x = scribble_type types in
+         for i = 0 to n + k - 1 do act (CWrite (id, nat_of_int i, x)) done
+     | _ -> failwith ("bad registration " ^ tok));
+    (Printf.sprintf "%s:%s:%s" sty store types, style, name_of_string store, tys)) toks in
+  let held = reg_types !st in
+  if List.length held <> List.length named then failwith "registration model: a registration is missing";
+  List.map2 (fun (key, style, store, tys) now ->
+    if now <> tys then failwith ("registration model: " ^ key ^ " no longer holds the types named in the call");
+    (key, { l_style = style; l_store = store; l_types = now })) named held
 
 let multi_tokens (regs : (string * listener) list) (sevs : sevent list) : string list =
   let out = ref [] in
@@ -264,7 +317,7 @@ let () =
                    | Some "HOOKS" -> ignore (next ()); let n = next_int () in Array.of_list (repeat n next)
                    | _ -> [||]) in
       let regs = (match peek () with
-                  | Some "REGS" -> ignore (next ()); let n = next_int () in List.map parse_reg (repeat n next)
+                  | Some "REGS" -> ignore (next ()); let n = next_int () in parse_regs (repeat n next)
                   | _ -> []) in
       (* a caller that swallows vetoes leaves the machine's transaction discipline: not modelled *)
       if mode = "swl" then toks := [||];
